@@ -6,7 +6,7 @@ except NameError:
         return None
 import itertools
 from glom.core import glom, T, SKIP, STOP, MODE, UnregisteredTarget, BadSpec, TargetRegistry, Path
-from glom.reduction import FoldError, Flatten, Fold
+from glom.reduction import FoldError, Flatten, Fold, Merge
 from glom.grouping import GROUP, ACC_TREE, CUR_AGG, target_iter
 
 
@@ -200,3 +200,30 @@ def group_mode_ref(target, spec, scope):
         if result is not SKIP:
             acc.append(result)
     return acc
+
+
+def flatten_func_ref(target, **kwargs):
+    """flatten(target, spec=T, init=list, levels=1): levels == 0 returns the target itself; otherwise the sub-target is flattened lazily
+    levels - 1 times (chain.from_iterable) and the last level is folded into init()"""
+    subspec = kwargs.pop('spec', T)
+    init = kwargs.pop('init', list)
+    levels = kwargs.pop('levels', 1)
+    if kwargs:
+        raise TypeError('unexpected keyword args: %r' % sorted(kwargs.keys()))
+    if levels == 0:
+        return target
+    if levels < 0:
+        raise ValueError('expected levels >= 0, not %r' % levels)
+    spec = (subspec,)
+    spec += (Flatten(init="lazy"),) * (levels - 1)
+    spec += (Flatten(init=init),)
+    return glom(target, spec)
+
+
+def merge_func_ref(target, **kwargs):
+    subspec = kwargs.pop('spec', T)
+    init = kwargs.pop('init', dict)
+    op = kwargs.pop('op', None)
+    if kwargs:
+        raise TypeError('unexpected keyword args: %r' % sorted(kwargs.keys()))
+    return glom(target, Merge(subspec, init, op))
